@@ -309,12 +309,30 @@ def check_routing(chk, prog):
     chk.rule('C17.routing', 'raw malloc/free only inside jwt_malloc/__jwt_freemem; jansson is given the same allocator', n, bad, floor=3)
 
 
+def check_silent_degrade(chk, prog):
+    """library calls that, by the API model, can return damaged output as success when an internal routed allocation fails"""
+    eff = effects.Effects(prog)
+    n = 0
+    bad = 0
+    for k, info in sorted(eff.funcs.items()):
+        for tgt, node in info['callsites']:
+            if tgt[0] == 'ext' and SPEC.get(tgt[1], {}).get('degrades'):
+                n += 1
+                bad += 1
+                chk.add(Finding('C17.silent-degrade', info['decl'].get('_f'), k[1], tgt[1],
+                                '%s() result is returned to the caller / built into the token; %s' % (tgt[1], SPEC[tgt[1]]['degrades']),
+                                line=node.get('_l')))
+    chk.rule('C17.silent-degrade', 'call sites of library functions that the API model marks as degrading silently under allocation failure',
+             max(n, 1), bad, floor=1)
+
+
 def run(chk, prog, tier):
     env = Env(prog)
     model = build_model()
     chk.coverage['summaries_validated'] = summaries.validate(prog, model)
     check_routing(chk, prog)
     check_dropped_results(chk, prog)
+    check_silent_degrade(chk, prog)
     chk.guard('constructors', check_constructors, chk, prog, env, model)
     chk.guard('verify/generate', check_verify_generate, chk, prog, env, model)
     chk.guard('jwk loaders', check_jwk, chk, prog, env, model)
